@@ -523,8 +523,9 @@ var PureAccessors = map[string]bool{
 
 // Guard is a branch condition known to hold (Pol=true) or not hold (Pol=false).
 type Guard struct {
-	Cond ssa.Value
-	Pol  bool
+	Cond  ssa.Value
+	Pol   bool
+	Block *ssa.BasicBlock // the block whose terminating If produced the guard
 }
 
 func (g Guard) String() string {
@@ -541,7 +542,7 @@ func normGuard(g Guard) Guard {
 		if !ok || u.Op != token.NOT {
 			return g
 		}
-		g = Guard{u.X, !g.Pol}
+		g = Guard{u.X, !g.Pol, g.Block}
 	}
 }
 
@@ -572,10 +573,10 @@ func edgeGuardDom(d, b *ssa.BasicBlock) (Guard, bool) {
 	td := len(t.Preds) == 1 && t.Dominates(b)
 	fd := len(f.Preds) == 1 && f.Dominates(b)
 	if td && !fd {
-		return normGuard(Guard{iff.Cond, true}), true
+		return normGuard(Guard{iff.Cond, true, d}), true
 	}
 	if fd && !td {
-		return normGuard(Guard{iff.Cond, false}), true
+		return normGuard(Guard{iff.Cond, false, d}), true
 	}
 	return Guard{}, false
 }
@@ -612,7 +613,7 @@ func guardDNF(b *ssa.BasicBlock, depth int, onpath map[*ssa.BasicBlock]bool) [][
 		var eg []Guard
 		if len(p.Instrs) > 0 {
 			if iff, ok := p.Instrs[len(p.Instrs)-1].(*ssa.If); ok && p.Succs[0] != p.Succs[1] {
-				eg = append(eg, normGuard(Guard{iff.Cond, p.Succs[0] == b}))
+				eg = append(eg, normGuard(Guard{iff.Cond, p.Succs[0] == b, p}))
 			}
 		}
 		nd := depth
@@ -964,6 +965,19 @@ func dependsOn(v ssa.Value, pred func(ssa.Value) bool, seen map[ssa.Value]bool) 
 	if pred(v) {
 		return true
 	}
+	if fa, ok := v.(*ssa.FieldAddr); ok {
+		if _, root := fieldPath(fa); root != nil {
+			if _, isAlloc := root.(*ssa.Alloc); isAlloc {
+				// a field of a local struct variable: only the stores to that same field path
+				for _, sv := range AllocFieldStores(fa) {
+					if dependsOn(sv, pred, seen) {
+						return true
+					}
+				}
+				return false
+			}
+		}
+	}
 	if a, ok := v.(*ssa.Alloc); ok {
 		for _, r := range *a.Referrers() {
 			switch s := r.(type) {
@@ -971,9 +985,9 @@ func dependsOn(v ssa.Value, pred func(ssa.Value) bool, seen map[ssa.Value]bool) 
 				if s.Addr == a && dependsOn(s.Val, pred, seen) {
 					return true
 				}
-			case *ssa.IndexAddr, *ssa.FieldAddr:
-				for _, rr := range *s.(ssa.Value).Referrers() {
-					if st, ok := rr.(*ssa.Store); ok && st.Addr == s.(ssa.Value) && dependsOn(st.Val, pred, seen) {
+			case *ssa.IndexAddr:
+				for _, rr := range *s.Referrers() {
+					if st, ok := rr.(*ssa.Store); ok && st.Addr == s && dependsOn(st.Val, pred, seen) {
 						return true
 					}
 				}
@@ -1017,4 +1031,60 @@ func Uses(v ssa.Value) []ssa.Instruction {
 	}
 	rec(v)
 	return out
+}
+
+// IsLoopHeader reports whether b has a back edge (a predecessor it dominates).
+func IsLoopHeader(b *ssa.BasicBlock) bool {
+	for _, p := range b.Preds {
+		if b.Dominates(p) {
+			return true
+		}
+	}
+	return false
+}
+
+// AllocFieldStores returns the values stored into the same field path of a local struct
+// variable as the given address (addr must be a FieldAddr chain rooted at an Alloc).
+func AllocFieldStores(addr ssa.Value) []ssa.Value {
+	path, root := fieldPath(addr)
+	al, ok := root.(*ssa.Alloc)
+	if !ok || path == "" {
+		return nil
+	}
+	var out []ssa.Value
+	var walk func(v ssa.Value)
+	walk = func(v ssa.Value) {
+		refs := v.Referrers()
+		if refs == nil {
+			return
+		}
+		for _, r := range *refs {
+			switch x := r.(type) {
+			case *ssa.FieldAddr:
+				walk(x)
+			case *ssa.Store:
+				if x.Addr == v {
+					if pp, _ := fieldPath(x.Addr); pp == path {
+						out = append(out, x.Val)
+					}
+				}
+			}
+		}
+	}
+	walk(al)
+	return out
+}
+
+func fieldPath(addr ssa.Value) (string, ssa.Value) {
+	var parts []string
+	v := addr
+	for {
+		fa, ok := v.(*ssa.FieldAddr)
+		if !ok {
+			return strings.Join(parts, "."), v
+		}
+		_, f, base, _ := FieldRef(fa)
+		parts = append([]string{f}, parts...)
+		v = base
+	}
 }
